@@ -57,6 +57,11 @@ void hwloc_internal_distances_init(struct hwloc_topology *topology)
 {
   topology->first_dist = topology->last_dist = NULL;
   topology->next_dist_id = 0;
+  /* no grouping until hwloc_internal_distances_prepare() enables it */
+  topology->grouping = 0;
+  topology->grouping_verbose = 0;
+  topology->grouping_nbaccuracies = 0;
+  topology->grouping_next_subkind = 0;
 }
 
 /* called at the beginning of load() */
@@ -188,6 +193,12 @@ int hwloc_internal_distances_dup(struct hwloc_topology *new, struct hwloc_topolo
   struct hwloc_internal_distances_s *olddist;
   int err;
   new->next_dist_id = old->next_dist_id;
+  /* grouping config, in case distances are added to the new topology later */
+  new->grouping = old->grouping;
+  new->grouping_verbose = old->grouping_verbose;
+  new->grouping_nbaccuracies = old->grouping_nbaccuracies;
+  memcpy(new->grouping_accuracies, old->grouping_accuracies, sizeof(new->grouping_accuracies));
+  new->grouping_next_subkind = old->grouping_next_subkind;
   for(olddist = old->first_dist; olddist; olddist = olddist->next) {
     err = hwloc_internal_distances_dup_one(new, olddist);
     if (err < 0)
